@@ -226,6 +226,18 @@ fn c16_raw() -> Vec<(String, String)> {
     add("raw_shared_skips", "#[logos(skip \" +\", skip \"\\t+\")] #[logos(skip \"#[a-z]*\")] enum T { #[token(\"a\")] #[token(\"b\")] AB, #[token(\"c\")] C }");
     add("raw_shared_cb", "#[logos(skip(\" +\", sk), skip(\"\\n+\", sk))] enum T { #[regex(\"[a-z]+\", cb)] #[regex(\"[A-Z]+\", cb)] W(u8), #[regex(\"[0-9]+\", cb)] N(u8), #[token(\"x\", |_| 1)] #[token(\"y\", |_| 1)] XY(u8), #[token(\"=\")] #[token(\":=\")] Eq }");
     add("raw_shared_many", "enum T { #[token(\"a\")] #[token(\"b\")] #[token(\"c\")] #[token(\"d\")] #[token(\"e\")] Abc, #[token(\"f\")] #[token(\"g\")] #[token(\"h\")] Fgh, #[token(\"i\")] #[token(\"j\")] Ij, #[token(\"k\")] #[token(\"l\")] Kl, #[token(\"m\")] M }");
+    // EXACT REPEATS of an item next to distinct ones (anything that folds repeats through a hash
+    // container loses the written order): repeated skips, repeated attributes on one variant and on
+    // several variants, repeated subpatterns / type items, in lists of 3 to 10 items
+    add("raw_repeat_skips3", "#[logos(skip \" +\", skip \"\\t+\", skip \" +\")] enum T { #[token(\"a\")] A }");
+    add("raw_repeat_skips6", "#[logos(skip \" +\", skip \"\\t+\", skip \" +\", skip \"\\n+\", skip \"#[a-z]*\", skip \"\\t+\")] enum T { #[token(\"a\")] A, #[regex(\"[0-9]+\")] N }");
+    add("raw_repeat_skips10", "#[logos(skip \"s0\", skip \"s1\", skip \"s2\", skip \"s3\", skip \"s0\")] #[logos(skip \"s4\", skip \"s5\", skip \"s6\", skip \"s7\", skip \"s4\")] enum T { #[token(\"a\")] A }");
+    add("raw_repeat_skips_cb", "#[logos(skip(\" +\", sk), skip(\"\\t+\", sk), skip(\" +\", sk), skip(\"\\n+\"), skip(\"\\n+\"))] enum T { #[token(\"a\")] A }");
+    add("raw_repeat_skips_prio", "#[logos(skip(\"a+\", priority = 5), skip(\"b+\", priority = 5), skip(\"a+\", priority = 5), skip(\"c+\", priority = 6), skip(\"b+\", priority = 5))] enum T { #[token(\"z\")] Z }");
+    add("raw_repeat_attrs", "enum T { #[token(\"a\")] #[token(\"b\")] #[token(\"a\")] #[token(\"c\")] #[token(\"d\")] #[token(\"c\")] A, #[regex(\"[0-9]+\")] #[regex(\"[0-9]+\")] N }");
+    add("raw_repeat_variants", "enum T { #[token(\"a\")] A, #[token(\"b\")] B, #[token(\"a\")] C, #[token(\"c\")] D, #[token(\"b\")] E, #[token(\"d\")] F }");
+    add("raw_repeat_subs", "#[logos(subpattern a = \"x\", subpattern b = \"y\", subpattern a = \"x\", subpattern c = \"z\", subpattern b = \"y\")] enum T { #[regex(\"(?&a)(?&b)(?&c)\")] A }");
+    add("raw_repeat_types", "#[logos(type A = u8, type B = u16, type A = u8, type C = u32, type B = u16)] enum T<A, B, C> { #[regex(\"a\", cb)] X(A), #[regex(\"b\", cb)] Y(B), #[regex(\"c\", cb)] Z(C) }");
     v
 }
 
